@@ -125,10 +125,41 @@ struct ctx {
     int ev_mark, rec_mark;
     bool any_data;
     bool got_after_set;
+    bool skip_getters;      /* C20 second pass: same history without the getter calls */
+    int force_pool;         /* C01 second pass: pool depth override (-1: from the tape) */
+    uint64_t trace;         /* hash of everything the sinks saw */
 };
 
 #define R(...) do { if (c->render) vp_render(c->rep, __VA_ARGS__); } while (0)
 #define FAILP(on, key, ...) do { if ((on) && !c->ret) c->ret = vp_fail(c->rep, PID "/" key, __VA_ARGS__); } while (0)
+
+/* ---------------------------------------------------------------- pooled structures are poisoned while in a pool (C01) */
+#if PIPES_PROP == 1
+#include "upipe/uverif.h"
+#include <sanitizer/asan_interface.h>
+#include <sanitizer/allocator_interface.h>
+static void *pool_pending;           /* object handed to upool_free, not yet known to be pooled */
+static unsigned long pool_poisoned;
+static void pool_track_reset(void) { pool_pending = NULL; }
+void upipe_verif_pool(int op, void *pool, void *obj)
+{
+    switch (op) {
+    case UVERIF_POOL_FREE: pool_pending = obj; break;
+    case UVERIF_LIFO_PUSHED:
+        if (obj == pool_pending && __sanitizer_get_ownership(obj)) {
+            size_t sz = __sanitizer_get_allocated_size(obj);
+            __asan_poison_memory_region(obj, sz);
+            pool_poisoned++;
+        }
+        pool_pending = NULL;
+        break;
+    case UVERIF_LIFO_POPPED:
+        if (obj != NULL && __sanitizer_get_ownership(obj))
+            __asan_unpoison_memory_region(obj, __sanitizer_get_allocated_size(obj));
+        break;
+    }
+}
+#endif
 
 /* ---------------------------------------------------------------- input construction */
 
@@ -343,6 +374,11 @@ static void process_new_records(struct ctx *c, const char *what, int inject_j, s
     if (ref != NULL && !strict && expect_sink < 0) ref = NULL;
     struct pfx *pfx = &c->pfx;
     int ndeliv = 0;
+    for (int i = c->rec_mark; i < pfx->nrecs; i++) {
+        struct pfx_rec *r = &pfx->recs[i];
+        if (r->kind == PFX_INPUT || r->kind == PFX_FLOWDEF_ACCEPTED || r->kind == PFX_FLOWDEF_REJECTED)
+            c->trace = vp_hash_mix(vp_hash_mix(c->trace, r->kind * 64 + r->sink), r->sig);
+    }
     for (int i = c->rec_mark; i < pfx->nrecs && !c->ret; i++) {
         struct pfx_rec *r = &pfx->recs[i];
         if (r->kind != PFX_INPUT) continue;
@@ -556,7 +592,7 @@ static void op_set_output(struct ctx *c)
     if (z->data_flowed && z->out != k) c->classes |= 1u << CL_SWAP_AFTER_DATA;
     z->out = k; z->sent_def = -1;
     if (k == OUT_SINKA || k == OUT_SINKB) c->connect_seq[k == OUT_SINKA ? 0 : 1] = seq_before;
-    if (ORACLE_OPTS) {
+    if (ORACLE_OPTS && !c->skip_getters) {
         struct upipe *got = (struct upipe *)1;
         if (ubase_check(upipe_get_output(z->upipe, &got)) && got != target)
             FAILP(true, "get/output", "%s: get_output returns %p, set was %p", what, (void *)got, (void *)target);
@@ -658,18 +694,21 @@ static void op_option(struct ctx *c)
     switch (z->type) {
     case T_SKIP:
         if (set) { err = upipe_skip_set_offset(z->upipe, v); snprintf(what, sizeof what, "skip.set_offset(%llu)", (unsigned long long)v); if (ubase_check(err)) z->opt[0] = v; else c->classes |= 1u << CL_OPT_REJECTED; }
+        else if (c->skip_getters) break;
         else { size_t got = 12345; err = upipe_skip_get_offset(z->upipe, &got); snprintf(what, sizeof what, "skip.get_offset -> %zu", got);
                if (!ubase_check(err) || got != z->opt[0]) FAILP(ORACLE_OPTS, "get/skip-offset", "skip get_offset returned %zu (err %d), last accepted value is %llu", got, err, (unsigned long long)z->opt[0]);
                c->got_after_set = true; }
         break;
     case T_DELAY:
         if (set) { int64_t d = (sel & 0x80) ? -(int64_t)v : (int64_t)v; err = upipe_delay_set_delay(z->upipe, d); snprintf(what, sizeof what, "delay.set_delay(%lld)", (long long)d); if (ubase_check(err)) z->opt[0] = (uint64_t)d; else c->classes |= 1u << CL_OPT_REJECTED; }
+        else if (c->skip_getters) break;
         else { int64_t got = 12345; err = upipe_delay_get_delay(z->upipe, &got); snprintf(what, sizeof what, "delay.get_delay -> %lld", (long long)got);
                if (!ubase_check(err) || got != (int64_t)z->opt[0]) FAILP(ORACLE_OPTS, "get/delay", "delay get_delay returned %lld (err %d), last accepted value is %lld", (long long)got, err, (long long)z->opt[0]);
                c->got_after_set = true; }
         break;
     case T_SETRAP:
         if (set) { err = upipe_setrap_set_rap(z->upipe, v); snprintf(what, sizeof what, "setrap.set_rap(%llu)", (unsigned long long)v); if (ubase_check(err)) z->opt[0] = v; else c->classes |= 1u << CL_OPT_REJECTED; }
+        else if (c->skip_getters) break;
         else { uint64_t got = 12345; err = upipe_setrap_get_rap(z->upipe, &got); snprintf(what, sizeof what, "setrap.get_rap -> %llu", (unsigned long long)got);
                if (!ubase_check(err) || got != z->opt[0]) FAILP(ORACLE_OPTS, "get/setrap", "setrap get_rap returned %llu (err %d), last accepted value is %llu", (unsigned long long)got, err, (unsigned long long)z->opt[0]);
                c->got_after_set = true; }
@@ -683,7 +722,8 @@ static void op_option(struct ctx *c)
             uref_free(d);
             snprintf(what, sizeof what, "%s.set_dict(v%d)", zoo[z->type].name, dv);
             if (ubase_check(err)) { int before = outv(z); z->dictv = dv; if (outv(z) != before) z->sent_def = -1; } else c->classes |= 1u << CL_OPT_REJECTED;
-        } else {
+        } else if (c->skip_getters) break;
+        else {
             struct uref *got = (struct uref *)1;
             err = sa ? upipe_setattr_get_dict(z->upipe, &got) : upipe_setflowdef_get_dict(z->upipe, &got);
             snprintf(what, sizeof what, "%s.get_dict", zoo[z->type].name);
@@ -710,6 +750,7 @@ static void op_option(struct ctx *c)
         break;
     case T_AGG: {
         if (set) { err = upipe_set_output_size(z->upipe, v); snprintf(what, sizeof what, "agg.set_output_size(%llu)", (unsigned long long)v); if (ubase_check(err)) z->opt[0] = v; else c->classes |= 1u << CL_OPT_REJECTED; }
+        else if (c->skip_getters) break;
         else { unsigned got = 12345; err = upipe_get_output_size(z->upipe, &got); snprintf(what, sizeof what, "agg.get_output_size -> %u", got);
                if (!ubase_check(err) || got != z->opt[0]) FAILP(ORACLE_OPTS, "get/agg-output-size", "agg get_output_size returned %u (err %d), last accepted value is %llu", got, err, (unsigned long long)z->opt[0]);
                c->got_after_set = true; }
@@ -721,7 +762,8 @@ static void op_option(struct ctx *c)
             snprintf(what, sizeof what, "chunk_stream.set_mtu(%u,%u)", mtu, align);
             /* documented: align must not exceed mtu */
             if (ubase_check(err)) { z->opt[0] = mtu; z->opt[1] = align; } else c->classes |= 1u << CL_OPT_REJECTED;
-        } else {
+        } else if (c->skip_getters) break;
+        else {
             unsigned mtu = 12345, align = 12345;
             err = upipe_chunk_stream_get_mtu(z->upipe, &mtu, &align);
             snprintf(what, sizeof what, "chunk_stream.get_mtu -> %u,%u", mtu, align);
@@ -731,7 +773,8 @@ static void op_option(struct ctx *c)
         break; }
     default: {
         /* generic getters of every output-helper pipe: flow definition and output */
-        if (!zoo[z->type].has_output) break;
+        if (!zoo[z->type].has_output || c->skip_getters) break;
+        c->got_after_set = true;
         struct uref *fd = (struct uref *)1;
         err = upipe_get_flow_def(z->upipe, &fd);
         snprintf(what, sizeof what, "%s.get_flow_def", zoo[z->type].name);
@@ -750,16 +793,18 @@ static void op_option(struct ctx *c)
 
 /* ---------------------------------------------------------------- main */
 
-static int run(const uint8_t *tp_, size_t len, struct vp_report *rep, unsigned flags)
+static struct ctx ctx;
+
+static int run_once(const uint8_t *tp_, size_t len, struct vp_report *rep, unsigned flags, bool skip_getters, int force_pool)
 {
-    static struct ctx ctx;
     struct ctx *c = &ctx;
     memset(c, 0, sizeof(*c));
     tp_init(&c->t, tp_, len);
     c->rep = rep; c->render = flags & VP_RENDER; c->hash = VP_HASH_INIT;
+    c->skip_getters = skip_getters; c->force_pool = force_pool; c->trace = VP_HASH_INIT;
 
     uint8_t cfgb = tp_u8(&c->t);
-    struct pfx_cfg cfg = { .pool_depth = (int[]){ 0, 1, 4 }[cfgb % 3], .prepend = (cfgb / 3) % 2 ? 8 : 0, .append = 0, .align = (cfgb / 6) % 2 ? 16 : 0,
+    struct pfx_cfg cfg = { .pool_depth = force_pool >= 0 ? force_pool : (int[]){ 0, 1, 4 }[cfgb % 3], .prepend = (cfgb / 3) % 2 ? 8 : 0, .append = 0, .align = (cfgb / 6) % 2 ? 16 : 0,
                            .with_uref_mgr = true, .with_ubuf_mem = true, .with_upump_mgr = true, .with_uclock = true };
     if (pfx_init(&c->pfx, &cfg) != 0) return vp_internal(rep, "pfx_init");
     if (cfg.pool_depth) c->classes |= 1u << CL_POOL;
@@ -837,7 +882,7 @@ static int run(const uint8_t *tp_, size_t len, struct vp_report *rep, unsigned f
     if (c->delivered >= 8) c->classes |= 1u << CL_DELIVERED8;
     if (c->got_after_set && c->any_data) c->classes |= 1u << CL_OPT_GET_AFTER_SET;
     rep->case_hash = c->hash;
-    rep->classes = c->classes;
+    rep->classes |= c->classes;
 #if PIPES_PROP == 1
     rep->nontrivial = (c->classes & ((1u << CL_SWAP_AFTER_DATA) | (1u << CL_RELEASE_MID) | (1u << CL_SUBCHURN))) != 0;
 #elif PIPES_PROP == 4
@@ -848,6 +893,40 @@ static int run(const uint8_t *tp_, size_t len, struct vp_report *rep, unsigned f
     rep->nontrivial = (c->classes & (1u << CL_OPT_GET_AFTER_SET)) != 0;
 #endif
     return c->ret;
+}
+
+static int run(const uint8_t *tape, size_t len, struct vp_report *rep, unsigned flags)
+{
+#if PIPES_PROP == 1
+    /* the decoded history is executed with pool depth 0 (every structure is a malloc: ASan sees stale accesses)
+     * and with pools (recycled structures are poisoned while they sit in a pool) */
+    pool_track_reset();
+    int r = run_once(tape, len, rep, flags, false, 0);
+    if (r) return r;
+    if (flags & VP_RENDER) vp_render(rep, "---- second pass: pool depth 4\n");
+    pool_track_reset();
+    r = run_once(tape, len, rep, flags, false, 4);
+    rep->classes |= 1u << CL_POOL;
+    return r;
+#elif PIPES_PROP == 20
+    int r = run_once(tape, len, rep, flags, false, -1);
+    if (r) return r;
+    uint64_t with_getters = ctx.trace;
+    int nt = rep->nontrivial; uint64_t h = rep->case_hash; uint32_t cl = rep->classes;
+    if (!ctx.got_after_set) return 0;
+    /* metamorphic: the same history without the getter calls must show the sinks exactly the same things */
+    struct vp_report r2; memset(&r2, 0, sizeof r2);
+    r = run_once(tape, len, &r2, flags & ~VP_RENDER, true, -1);
+    free(r2.render);
+    rep->nontrivial = nt; rep->case_hash = h; rep->classes = cl;
+    if (r == 2) return vp_internal(rep, "second pass: %s", r2.msg);
+    if (r == 1) return vp_fail(rep, r2.key, "without getter calls: %s", r2.msg);
+    if (ctx.trace != with_getters)
+        return vp_fail(rep, "C20/noninterference/trace", "the sinks saw different flow definitions / buffers when the getter calls of this history are left out: a getter changed what the pipe does");
+    return 0;
+#else
+    return run_once(tape, len, rep, flags, false, -1);
+#endif
 }
 
 const struct vp_executor vp_executor = { PID, "pipes", 200, class_names, run, NULL };
